@@ -163,12 +163,16 @@ theorem C05_parse_total (src : Bytes) :
       · exact .inr (.inr ⟨w, rfl⟩)
     | ok p =>
       obtain ⟨nodes, rest⟩ := p
-      show (∃ n, (if hasDup (blockNamesL nodes) then perr "the block has already been defined" else pure nodes) = .ok n) ∨
-        (∃ m, (if hasDup (blockNamesL nodes) then perr "the block has already been defined" else pure nodes)
+      show (∃ n, (if strayEnd rest then perr "unexpected tag without an open block"
+            else if hasDup (blockNamesL nodes) then perr "the block has already been defined" else pure nodes) = .ok n) ∨
+        (∃ m, (if strayEnd rest then perr "unexpected tag without an open block"
+            else if hasDup (blockNamesL nodes) then perr "the block has already been defined" else pure nodes)
           = .error (.error .parse [] m)) ∨ _
       split
       · exact .inr (.inl ⟨_, rfl⟩)
-      · exact .inl ⟨nodes, rfl⟩
+      · split
+        · exact .inr (.inl ⟨_, rfl⟩)
+        · exact .inl ⟨nodes, rfl⟩
 
 theorem C05_parse_never_fuel (src : Bytes) : parseTemplate src ≠ .error .fuel := by
   intro h
